@@ -277,7 +277,7 @@ func genEncW(emit func(string), tier string, rng *Rng) {
 		case 2:
 			lmt = 0
 		}
-		pvOpt := []int{0, 0, 0, 0x20, 0x10, 0x21}[rng.Intn(6)]
+		pvOpt := []int{0, 0, 0, 0, 0x20, 0x20, 0x20, 0x21, 0x21, 0x10}[rng.Intn(10)]
 		wk := []string{"plain", "at", "seek", "both"}[rng.Intn(4)]
 		bs := []int{-1, 0, 1, 2, 13, 14, 15, 64, 4096, 65536}[rng.Intn(10)]
 		nfiles := 1
@@ -317,7 +317,7 @@ func genEncW(emit func(string), tier string, rng *Rng) {
 			ts = 0xFFFFFFE0 + uint32(rng.Intn(31))
 		}
 		for f := 0; f < nfiles; f++ {
-			file := wFile{size: []int{14, 14, 12, 0, 13}[rng.Intn(5)], protoVer: []int{0, 0x20, 0x20, 0x10, 0x23}[rng.Intn(5)],
+			file := wFile{size: []int{14, 14, 12, 0, 13}[rng.Intn(5)], protoVer: []int{0x20, 0x20, 0x20, 0x20, 0x20, 0x23, 0x2F, 0, 0x10}[rng.Intn(9)],
 				profileVer: []int{0, 0, 2158, 65535}[rng.Intn(4)]}
 			if rng.Intn(4) == 0 {
 				file.dataSize = uint32(rng.Intn(100))
